@@ -1,6 +1,6 @@
 """C20 - sorting, chunking and progress/parallel wrappers preserve items and order.
 
-Four sub-checks, each with the same shape (TLC model -> exported cases -> real code
+Seven sub-checks, each with the same shape (TLC model -> exported cases -> real code
 -> recorded observations -> TLA+ trace module); Python only maps abstract <->
 concrete and records, the specification judges.
 
@@ -15,7 +15,18 @@ concrete and records, the specification judges.
             one TLC exported -> PoolMapTrace.tla (result = map, and an interleaving of
             the model's actions that explains the per-process event streams)
 
-`./check C20 --only sort,chunk,pbar,pmap` runs a subset (development aid).
+  sortscale  SortScale.tla (structured inputs of 39..2500 elements as run-length encoded ramps; law: the clauses on the
+         encoding = the clauses on the arrays) -> the real sorts with the recursion limit raised -> QuicksortTrace.tla
+         (Algo!SortFailingR on the run-length encoded result)
+  pbarhist   ProgressHist.tla (several wrapper objects over shared / exhausted / failing iterables, finished wrappers
+         asked again, consumers walking away) -> consumer scripts (tlc -simulate) on pbar / PBar -> ProgressHistTrace.tla
+  pmaphist   PoolHist.tla (histories of pmap calls in ONE process: module state the task function reads, the caller's
+         list object and a long-lived iterator change between the calls; failing and rejected calls are stutter
+         steps; mechanism variant with a pool kept between calls) -> histories (tlc -simulate), each executed in a
+         forked child of its own -> PoolHistTrace.tla (call k = list(map(fn_k, items_k)) in the parent AT THAT TIME)
+
+The model-level TLC runs of all parts are independent of the real code and of each other: `_prefetch` starts them
+side by side.  `./check C20 --only sort,sortscale,chunk,pbar,pbarhist,pmap,pmaphist` runs a subset (development aid).
 """
 import array
 import collections
@@ -33,7 +44,7 @@ from ..tlc import cfg
 
 NEEDS_EXT = True      # `import esutil` imports sfile -> recfile, which needs its extension (build is cached)
 
-PARTS = ("sort", "chunk", "pbar", "pmap")
+PARTS = ("sort", "sortscale", "chunk", "pbar", "pbarhist", "pmap", "pmaphist")
 
 
 def _want(ctx, part):
@@ -43,6 +54,140 @@ def _want(ctx, part):
 
 def _err(e):
     return type(e).__name__
+
+
+# =====================================================================================
+# 0. the model-level TLC runs of all parts (independent of each other and of the real code): started together
+# =====================================================================================
+QS_LABELS = ["choose_n", "choose_a", "qs", "enter", "part", "outer", "up", "dn", "fin", "recurse"]
+
+
+def _model_table(ctx):
+    """key -> (module, kwargs of ctx.tlc); the key's prefix is the part that uses the run"""
+    t = {}
+    B = SORT_BOUNDS[ctx.tier]
+    t["sort.mc"] = ("Quicksort.tla", dict(
+        what="Quicksort: termination, Sorted /\\ Perm (pairs), partition invariants; export",
+        cfg_text=cfg(spec="Spec", constants=dict(B, KVCarry=True, Log=True, DoExport=True),
+                     invariants=["MechRefines", "PairsTogether", "HoleInv", "SplitInv", "StackInv"],
+                     properties=["Termination"], constraints=["Export"]),
+        workers=1, require=QS_LABELS, timeout=3000))
+    t["sort.self"] = ("Quicksort.tla", dict(
+        what="self-test: key-value partition that leaves a value behind violates MechRefines",
+        cfg_text=cfg(spec="Spec", constants=dict(B, MaxLen=3, KVCarry=False, Log=False, DoExport=False), invariants=["MechRefines"]),
+        workers=2, allow_violation=True, coverage=False))
+    T = SCALE_TIERS[ctx.tier]
+    sc = dict(Sizes=set(T["small"]) | set(T["large"]), SmallSizes=SCALE_SMALLSIZES, LawModes={"plain", "lin", "pos"},
+              LawK=T["LawK"], LawN=T["LawN"], DoExport=False)
+    t["sortscale.law"] = ("SortScale.tla", dict(
+        what="SortScale: clauses on run-length encoded arrays = clauses on the arrays (RampLaw); shapes are what they say (ShapeLaw)",
+        cfg_text=cfg(constants=sc, invariants=["RampLaw", "ShapeLaw"]), workers=4, coverage=False, timeout=3000))
+    t["sortscale.self"] = ("SortScale.tla", dict(
+        what="self-test: a sortedness clause that ignores ramp boundaries violates the law",
+        cfg_text=cfg(constants=dict(sc, LawModes={"plain"}), invariants=["RampLawNoBoundary"]), workers=2, allow_violation=True, coverage=False))
+    t["sortscale.export"] = ("SortScale.tla", dict(
+        what="export scale cases (shape x size x variant)",
+        cfg_text=cfg(constants=dict(sc, DoExport=True), constraints=["Export"]), workers=1, coverage=False, timeout=3000))
+    CB = dict(CHUNK_BOUNDS[ctx.tier], SizesFirst=True, DoExport=False)
+    t["chunk.mc"] = ("Isplit.tla", dict(
+        what="Isplit/SplitArray: mechanism refines property, reference accepted and unique (exhaustive)",
+        cfg_text=cfg(constants=CB, invariants=["MechRefines", "RefAccepted", "RefUnique"]), workers=16,
+        require=["ChooseNum", "ChooseChunks", "ChooseLen", "ChooseNper", "Divmod", "Sizes", "Cumsum", "Fill", "SCount", "SSlice", "SReturn"],
+        timeout=3000))
+    t["chunk.self"] = ("Isplit.tla", dict(
+        what="self-test: smaller sections first violates MechRefines",
+        cfg_text=cfg(constants=dict(CB, SizesFirst=False, MaxNum=7, MaxChunks=4, MaxLen=1, MaxNper=1), invariants=["MechRefines"]),
+        workers=2, allow_violation=True, coverage=False))
+    t["chunk.export"] = ("Isplit.tla", dict(
+        what="export (num, nchunks) and (nper, array) cases",
+        cfg_text=cfg(constants=dict(CB, DoExport=True), next_="NextExport", constraints=["Export"]), workers=1, coverage=False, timeout=3000))
+    PB = dict(PBAR_CONSTS, **PBAR_BOUNDS[ctx.tier])
+    t["pbar.mc"] = ("ProgressIter.tla", dict(
+        what="ProgressIter: prefix, laziness, no loss, completion (every case, most general wrapper)",
+        cfg_text=cfg(spec="Spec", constants=PB, invariants=["PrefixInv", "LazyInv", "NoLoss", "MechRefines"], properties=["Completes", "AllYielded"]),
+        workers=4, require=["ChooseSrc", "ChooseProto", "Request", "Abandon", "PullAny", "PullEnd", "YieldAny", "Exhaust", "Reject"]))
+    for var, inv in (("Lazy", "LazyInv"), ("FixedMeter", "MechRefines")):
+        t["pbar.self." + var] = ("ProgressIter.tla", dict(
+            what="self-test: %s = FALSE violates %s" % (var, inv),
+            cfg_text=cfg(spec="Spec", constants=dict(PB, **{var: False}), invariants=[inv]), workers=2, allow_violation=True, coverage=False))
+    t["pbar.export"] = ("ProgressIter.tla", dict(
+        what="export cases (kind x length x total x simple x requests x cosmetic options)",
+        cfg_text=cfg(constants=dict(PB, DoExport=True), init="MInit", next_="NextExport", constraints=["Export"]),
+        workers=1, coverage=False, timeout=3000))
+    H = PBH_TIERS[ctx.tier]
+    t["pbarhist.mc"] = ("ProgressHist.tla", dict(
+        what="ProgressHist: several wrappers / shared, exhausted, failing iterables: prefix, no loss, nothing twice, laziness",
+        cfg_text=cfg(init="HInit", next_="HNext", constants=dict(H["model"], Lazy=True, DoExport=False),
+                     invariants=["HPrefix", "HShared", "HLazy", "HNoLoss"]), workers=4, coverage=False, timeout=3000))
+    t["pbarhist.self"] = ("ProgressHist.tla", dict(
+        what="self-test: Lazy = FALSE violates HLazy",
+        cfg_text=cfg(init="HInit", next_="HNext", constants=dict(H["model"], MaxN=2, MaxCmd=2, Lazy=False, DoExport=False), invariants=["HLazy"]),
+        workers=2, allow_violation=True, coverage=False))
+    t["pbarhist.sim"] = ("ProgressHist.tla", dict(
+        what="simulate consumer scripts (wrap / next / close / drop on several wrappers and iterables)",
+        cfg_text=cfg(init="HInit", next_="HNextExport", constants=dict(H["sim"], Lazy=True, DoExport=True), constraints=["Export"]),
+        workers=1, coverage=False, timeout=3000, simulate="num=%d" % H["num"],
+        extra=["-depth", str(H["sim"]["MaxCmd"] + H["sim"]["MaxSrc"] + 3), "-seed", str(3000 + ctx.seed)]))
+    P = PMH_TIERS[ctx.tier]
+    pc = dict(PMH_CONSTS, PoolMode="fresh", Thin=False, DoExport=False)
+    small = dict(pc, MaxLen=3, MaxW=2, MaxCS=2, Gens={0, 1, 2})
+    t["pmaphist.mc"] = ("PoolHist.tla", dict(
+        what="PoolHist: every call of every history returns map(fn, items) of the parent AT THAT TIME; calls stutter on the caller's state",
+        cfg_text=cfg(init="HInit", next_="HNext", constants=dict(small, HDepth=P["mc_depth"]), invariants=["HistRefines", "TypeInv"],
+                     properties=["StutterLaw"]), workers=4, coverage=False, timeout=3000))
+    t["pmaphist.self"] = ("PoolHist.tla", dict(
+        what="self-test: a pool kept between calls (workers = snapshot of the first call) violates HistRefines",
+        cfg_text=cfg(init="HInit", next_="HNext", constants=dict(small, HDepth=4, PoolMode="cached"), invariants=["HistRefines"]),
+        workers=2, allow_violation=True, coverage=False))
+    t["pmaphist.sim"] = ("PoolHist.tla", dict(
+        what="simulate long histories of pmap calls (settab / mut / newiter / call, failing and rejected calls interleaved)",
+        cfg_text=cfg(init="HInit", next_="HNext", constants=dict(pc, Thin=True, DoExport=True, HDepth=P["depth"]), constraints=["Export"]),
+        workers=1, coverage=False, timeout=3000, simulate="num=%d" % P["num"],
+        extra=["-depth", str(3 * P["depth"] + 3), "-seed", str(2000 + ctx.seed)]))
+    MB = PMAP_BOUNDS[ctx.tier]
+    t["pmap.mc"] = ("PoolMap.tla", dict(
+        what="PoolMap: delivered = prefix of map(fn, items) under every schedule; <>all delivered (WF); export",
+        cfg_text=cfg(spec="Spec", constants=dict(MB, AnyOrder=False, DoExport=True), invariants=["PrefixInv", "ConserveInv", "FinalInv"],
+                     properties=["AllDelivered"], constraints=["Export"]),
+        workers=1, require=["ChooseN", "ChooseWC", "TakeAny", "EvalAny", "FinishAny", "Deliver"], timeout=3000))
+    t["pmap.self"] = ("PoolMap.tla", dict(
+        what="self-test: Deliver of ANY finished chunk violates PrefixInv",
+        cfg_text=cfg(spec="Spec", constants=dict(MB, MaxItems=3, AnyOrder=True, DoExport=False), invariants=["PrefixInv"]),
+        workers=2, allow_violation=True, coverage=False))
+    return t
+
+
+def _prefetch(ctx):
+    """start the model-level runs of the wanted parts side by side and wait for all of them (no thread is left running
+    when the parts fork their helper processes)"""
+    from concurrent.futures import ThreadPoolExecutor
+    table = {k: v for k, v in _model_table(ctx).items() if _want(ctx, k.split(".")[0])}
+    lanes = max(2, min(6, int(os.environ.get("VH_MAX_WORKERS", "16")) // 2))
+    ctx._c20_models = {}
+
+    def one(item):
+        key, (module, kw) = item
+        try:
+            return key, ctx.tlc(module, **kw), None
+        except Exception as e:  # noqa  (re-raised where the part asks for the run)
+            return key, None, e
+    # the long runs first
+    order = sorted(table.items(), key=lambda kv: (not kv[0].endswith((".mc", ".law", ".sim")), kv[0]))
+    with ThreadPoolExecutor(lanes) as ex:
+        for key, r, e in ex.map(one, order):
+            ctx._c20_models[key] = (r, e)
+
+
+def _m(ctx, key):
+    """result of a model-level run (pre-computed by _prefetch, or run now)"""
+    pre = getattr(ctx, "_c20_models", None)
+    if pre is None or key not in pre:
+        module, kw = _model_table(ctx)[key]
+        return ctx.tlc(module, **kw)
+    r, e = pre[key]
+    if e is not None:
+        raise e
+    return r
 
 
 # =====================================================================================
@@ -243,16 +388,8 @@ def _seeded_arrays(rng, n, maxlen):
 
 def part_sort(ctx):
     B = SORT_BOUNDS[ctx.tier]
-    labels = ["choose_n", "choose_a", "qs", "enter", "part", "outer", "up", "dn", "fin", "recurse"]
-    # model: termination + sorted/permutation/pairs for every array of the scope; export every run
-    r1 = ctx.tlc("Quicksort.tla", what="Quicksort: termination, Sorted /\\ Perm (pairs), partition invariants; export",
-                 cfg_text=cfg(spec="Spec", constants=dict(B, KVCarry=True, Log=True, DoExport=True),
-                              invariants=["MechRefines", "PairsTogether", "HoleInv", "SplitInv", "StackInv"],
-                              properties=["Termination"], constraints=["Export"]),
-                 workers=1, require=labels, timeout=3000)
-    r1b = ctx.tlc("Quicksort.tla", what="self-test: key-value partition that leaves a value behind violates MechRefines",
-                  cfg_text=cfg(spec="Spec", constants=dict(B, MaxLen=3, KVCarry=False, Log=False, DoExport=False),
-                               invariants=["MechRefines"]), workers=2, allow_violation=True, coverage=False)
+    r1 = _m(ctx, "sort.mc")     # termination + sorted/permutation/pairs for every array of the scope; every run exported
+    r1b = _m(ctx, "sort.self")
     if "MechRefines" not in r1b.violated:
         raise MachineryError("self-test failed: Quicksort MechRefines not violated by the deviating partition")
     seen, cases = set(), []
@@ -323,6 +460,156 @@ def part_sort(ctx):
     return ("every array of length 0..%d over %d keys (exported from Quicksort.tla) through %d plain containers and "
             "%d key x %d value containers, plus %d seeded arrays (ties, sorted, reversed, constant, organ-pipe, length 0..%d)"
             % (B["MaxLen"], len(B["Vals"]), len(PLAIN_KINDS), len(KV_KEY_KINDS), len(KV_VAL_KINDS), nrand, maxlen))
+
+
+# =====================================================================================
+# 1b. sorting at scale (SortScale.tla): run-length encoded cases and observations
+# =====================================================================================
+SCALE_TIERS = {"quick": dict(small={39, 40, 41, 42, 81, 82}, large={1000}, LawK=2, LawN=3),
+               "thorough": dict(small={20, 39, 40, 41, 42, 43, 80, 81, 82, 83, 127, 128, 129}, large={500, 1000, 1500, 2500}, LawK=2, LawN=4)}
+SCALE_SMALLSIZES = {0, 1, 2, 3, 4, 5, 7, 8, 9, 16, 17}
+SCALE_BIG_PLAIN = ["list-int", "np-i8", "list-str", "np-f8"]
+SCALE_BIG_KV = [("list-int", "np-2d"), ("np-i8", "np-struct"), ("list-int", "list-int"), ("np-f8", "list-tuple")]
+
+
+def _ramps_decode(rs):
+    return [a + j * d for a, d, k in rs for j in range(k)]
+
+
+def _pair_ramps(keys, vals):
+    """greedy run-length encoding of (keys[i], vals[i]) by constant first differences"""
+    out, i, n = [], 0, len(keys)
+    while i < n:
+        if i + 1 == n:
+            out.append([keys[i], 0, vals[i], 0, 1])
+            break
+        d, e, j = keys[i + 1] - keys[i], vals[i + 1] - vals[i], i + 1
+        while j + 1 < n and keys[j + 1] - keys[j] == d and vals[j + 1] - vals[j] == e:
+            j += 1
+        out.append([keys[i], d, vals[i], e, j - i + 1])
+        i = j + 1
+    return out
+
+
+def sortscale_obs(arg):
+    """one scale case through one container combination, recursion limit raised so that the interpreter's default
+    limit (a property of the caller's environment, not of the sort) does not decide the outcome"""
+    import sys
+    c, kkind, vkind = arg
+    keys_abs = _ramps_decode(c["keys"])
+    n = len(keys_abs)
+    vals_abs = ([] if c["variant"] == "plain" else list(range(1, n + 1)) if c["valmode"] == "pos" else [3 * k + 1 for k in keys_abs])
+    old = sys.getrecursionlimit()
+    sys.setrecursionlimit(max(old, 4 * n + 2000))
+    try:
+        o = sort_obs(c["variant"], kkind, vkind, keys_abs, vals_abs)
+    finally:
+        sys.setrecursionlimit(old)
+    if o["err"] == "none":
+        o["pr"] = _pair_ramps(o["keys"], o["vals"] if c["variant"] == "kv" else [0] * len(o["keys"]))
+    else:
+        o["pr"] = []
+    del o["keys"], o["vals"]
+    return o
+
+
+def _default_limit_probe(n):
+    """LEAD only: what the sort does with n already sorted elements at the interpreter's default recursion limit"""
+    from esutil import algorithm as al
+    a = list(range(n))
+    try:
+        al.quicksort(a)
+        return "sorted" if all(a[i] <= a[i + 1] for i in range(n - 1)) else "returned_unsorted"
+    except RecursionError:
+        return "RecursionError"
+    except Exception as e:  # noqa
+        return _err(e)
+
+
+def _judge_scale(ctx, recs, what, selftest=()):
+    rej = tracecheck.validate(ctx, "QuicksortTrace.tla",
+                              [{"id": r["id"], "c": {k: r["c"][k] for k in ("variant", "keys", "valmode")},
+                                "obs": [{"err": o["err"], "pr": o["pr"]} for o in r["obs"]]} for r in recs], what=what)
+    ctx.traces -= len([i for i in selftest if i not in rej])
+    byid = {r["id"]: r for r in recs}
+    for rid, failing in rej.items():
+        if rid in selftest:
+            continue
+        r = byid[rid]
+        for k, clause in failing:
+            o = r["obs"][k - 1]
+            ctx.violation(_sort_sig(r["c"], o, clause),
+                          "in-place sort of %d elements (%s) not allowed by Algo!SortFailingR: clause %s%s"
+                          % (r["c"]["n"], r["c"]["shape"], clause, (" (" + o["err"] + ")") if o["err"] != "none" else ""),
+                          {"kind": "sortscale", "c": r["c"], "kkind": o["kkind"], "vkind": o["vkind"],
+                           "observed": {"err": o["err"], "pr": o["pr"][:40]}})
+    return rej
+
+
+def part_sortscale(ctx):
+    T = SCALE_TIERS[ctx.tier]
+    sizes = set(T["small"]) | set(T["large"])
+    r1 = _m(ctx, "sortscale.law")
+    if r1.distinct < 5000:
+        raise MachineryError("SortScale law run visited only %d states" % r1.distinct)
+    rb = _m(ctx, "sortscale.self")
+    if "RampLawNoBoundary" not in rb.violated:
+        raise MachineryError("self-test failed: SortScale RampLawNoBoundary not violated")
+    r2 = _m(ctx, "sortscale.export")
+    cases = sorted(r2.records.get("SCALE", []), key=lambda c: (c["n"], c["shape"], c["variant"]))
+    if len(cases) != 8 * 2 * len(sizes):
+        raise MachineryError("SortScale export: %d cases, expected %d" % (len(cases), 16 * len(sizes)))
+    jobs, owner = [], []
+    for i, c in enumerate(cases):
+        big = c["n"] in T["large"]
+        if c["variant"] == "plain":
+            kinds = ([SCALE_BIG_PLAIN[(i // 2 + t) % len(SCALE_BIG_PLAIN)] for t in range(2)] if big
+                     else [PLAIN_KINDS[(i // 2 + t * 5) % len(PLAIN_KINDS)] for t in range(3)])
+            combos = [(k, "") for k in kinds]
+        else:
+            combos = ([SCALE_BIG_KV[(i // 2 + t) % len(SCALE_BIG_KV)] for t in range(2)] if big
+                      else [(KV_KEY_KINDS[(i // 2) % len(KV_KEY_KINDS)], KV_VAL_KINDS[(i // 2 + t * 3) % len(KV_VAL_KINDS)]) for t in range(3)])
+        for kk, vk in combos:
+            jobs.append((c, kk, vk))
+            owner.append(i)
+        ctx.count({"sortscale": [c["shape"], c["n"], c["variant"]]})
+    # the long quadratic cases first, so that the lanes are evenly loaded
+    order = sorted(range(len(jobs)), key=lambda j: -jobs[j][0]["n"])
+    res = _isolated_many(sortscale_obs, [jobs[j] for j in order], 4)
+    obs = [None] * len(jobs)
+    for j, o in zip(order, res):
+        obs[j] = o
+    recs = []
+    for i, c in enumerate(cases):
+        recs.append({"id": i + 1, "c": c, "obs": [obs[j] for j in range(len(jobs)) if owner[j] == i]})
+    ctx.sample({"sort_scale_case": {k: v for k, v in recs[-1]["c"].items()}, "observed": recs[-1]["obs"][0]})
+    # binding self-test: corrupted encodings of a long result ride along
+    probe = next(r for r in recs if r["c"]["n"] == max(T["large"]) and r["c"]["shape"] == "reversed" and r["c"]["variant"] == "kv"
+                 and r["obs"][0]["err"] == "none")
+    n = probe["c"]["n"]
+    good = probe["obs"][0]["pr"]
+    if good != [[0, 1, n, -1, n]]:
+        if not ctx.violations:
+            raise MachineryError("unexpected encoding of a sorted reversed array: %s" % good[:5])
+    S = [10 ** 6 + t for t in range(1, 4)]
+    h = n // 2                                                                  # reversed input: key k came from position n - k
+    bads = [[[0, 1, n, -1, n - 1], [n - 2, 0, 1, 0, 1]],                        # last key repeated: not a permutation, pair broken
+            [[1, 1, n - 1, -1, n - 1], [0, 0, n, 0, 1]],                        # smallest key at the end: not sorted
+            [[0, 1, n, -1, h - 1], [h - 1, 0, n - h, 0, 1], [h, 0, n - h + 1, 0, 1], [h + 1, 1, n - h - 1, -1, n - h - 1]]]   # two values exchanged
+    want = [{"not_permutation", "pairs_broken"}, {"not_sorted"}, {"pairs_broken"}]
+    rej = _judge_scale(ctx, recs + [{"id": S[t], "c": probe["c"], "obs": [dict(probe["obs"][0], pr=bads[t])]} for t in range(3)],
+                       "judge scale sort cases on run-length encoded observations (QuicksortTrace; corrupted copies ride along)", selftest=S)
+    got = [{f[1] for f in rej.get(S[t], [])} for t in range(3)]
+    if got != want and not ctx.violations:
+        raise MachineryError("binding self-test failed (sort scale): %s" % got)
+    lead = {str(n): _default_limit_probe(n) for n in sorted(T["large"])}
+    ctx.note(sortscale=dict(sizes=sorted(sizes), shapes=8, cases=len(cases), runs=len(jobs), law_states=r1.distinct,
+                            at_default_recursion_limit=lead))
+    if any(v != "sorted" for v in lead.values()):
+        ctx.log("LEAD (interpreter limit, not a verdict): quicksort on already sorted input at the default recursion limit: %s" % lead)
+    return ("8 structured shapes (sorted, reversed, constant, runs of ties up / down, organ pipe, rotated, sawtooth) x lengths %s x plain / "
+            "key-value exported from SortScale.tla, %d real sorts (recursion limit raised to 4n + 2000), judged by Algo!SortFailingR "
+            "on run-length encoded results" % (sorted(sizes), len(jobs)))
 
 
 # =====================================================================================
@@ -409,19 +696,11 @@ def _chunk_record(i, c, k=0):
 
 def part_chunk(ctx):
     B = CHUNK_BOUNDS[ctx.tier]
-    consts = dict(B, SizesFirst=True, DoExport=False)
-    ctx.tlc("Isplit.tla", what="Isplit/SplitArray: mechanism refines property, reference accepted and unique (exhaustive)",
-            cfg_text=cfg(constants=consts, invariants=["MechRefines", "RefAccepted", "RefUnique"]), workers=16,
-            require=["ChooseNum", "ChooseChunks", "ChooseLen", "ChooseNper", "Divmod", "Sizes", "Cumsum", "Fill", "SCount", "SSlice", "SReturn"],
-            timeout=3000)
-    rb = ctx.tlc("Isplit.tla", what="self-test: smaller sections first violates MechRefines",
-                 cfg_text=cfg(constants=dict(consts, SizesFirst=False, MaxNum=7, MaxChunks=4, MaxLen=1, MaxNper=1), invariants=["MechRefines"]),
-                 workers=2, allow_violation=True, coverage=False)
+    _m(ctx, "chunk.mc")
+    rb = _m(ctx, "chunk.self")
     if "MechRefines" not in rb.violated:
         raise MachineryError("self-test failed: Isplit MechRefines not violated by the deviating section order")
-    r2 = ctx.tlc("Isplit.tla", what="export (num, nchunks) and (nper, array) cases",
-                 cfg_text=cfg(constants=dict(consts, DoExport=True), next_="NextExport", constraints=["Export"]),
-                 workers=1, coverage=False, timeout=3000)
+    r2 = _m(ctx, "chunk.export")
     cases = r2.records.get("CASE", [])
     nexp = (B["MaxNum"] + 1) * B["MaxChunks"] + (B["MaxLen"] + 1) * B["MaxNper"]
     if len(cases) != nexp:
@@ -633,20 +912,12 @@ def _judge_pbar(ctx, recs, what):
 
 def part_pbar(ctx):
     B = PBAR_BOUNDS[ctx.tier]
-    consts = dict(PBAR_CONSTS, **B)
-    ctx.tlc("ProgressIter.tla", what="ProgressIter: prefix, laziness, no loss, completion (every case, most general wrapper)",
-            cfg_text=cfg(spec="Spec", constants=consts, invariants=["PrefixInv", "LazyInv", "NoLoss", "MechRefines"],
-                         properties=["Completes", "AllYielded"]),
-            workers=4, require=["ChooseSrc", "ChooseProto", "Request", "Abandon", "PullAny", "PullEnd", "YieldAny", "Exhaust", "Reject"])
+    _m(ctx, "pbar.mc")
     for var, inv in (("Lazy", "LazyInv"), ("FixedMeter", "MechRefines")):
-        rb = ctx.tlc("ProgressIter.tla", what="self-test: %s = FALSE violates %s" % (var, inv),
-                     cfg_text=cfg(spec="Spec", constants=dict(consts, **{var: False}), invariants=[inv]),
-                     workers=2, allow_violation=True, coverage=False)
+        rb = _m(ctx, "pbar.self." + var)
         if inv not in rb.violated:
             raise MachineryError("self-test failed: %s not violated with %s = FALSE" % (inv, var))
-    r2 = ctx.tlc("ProgressIter.tla", what="export cases (kind x length x total x simple x requests x cosmetic options)",
-                 cfg_text=cfg(constants=dict(consts, DoExport=True), init="MInit", next_="NextExport", constraints=["Export"]),
-                 workers=1, coverage=False, timeout=3000)
+    r2 = _m(ctx, "pbar.export")
     cases = r2.records.get("CASE", [])
     if len(cases) < 1000:
         raise MachineryError("ProgressIter export: only %d cases" % len(cases))
@@ -701,6 +972,229 @@ def part_pbar(ctx):
     return ("every (iterable kind in list/range/generator/len-less iterator, length 0..%d, total, simple, number of requests "
             "0..len+1, desc, leave, mininterval, miniters, n_bars) exported from ProgressIter.tla driven through pbar/PBar/prange, "
             "plus %d seeded runs up to length 60" % (B["MaxN"], nrand))
+
+
+# =====================================================================================
+# 3b. histories of progress wrappers (ProgressHist.tla)
+# =====================================================================================
+PBH_TIERS = {"quick": dict(model=dict(MaxN=1, MaxSrc=1, MaxWr=2, MaxCmd=5), sim=dict(MaxN=3, MaxSrc=2, MaxWr=3, MaxCmd=9), num=300, keep=1500),
+             "thorough": dict(model=dict(MaxN=2, MaxSrc=1, MaxWr=2, MaxCmd=6), sim=dict(MaxN=4, MaxSrc=2, MaxWr=3, MaxCmd=12), num=4000, keep=20000)}
+PBH_TRACE_CONSTS = dict(MaxN=1, MaxSrc=1, MaxWr=3, MaxCmd=1, Lazy=True, DoExport=False)
+
+
+class _SrcFail(Exception):
+    """what a failing iterable of a history raises"""
+
+
+class _HRec:
+    def __init__(self):
+        self.ev = []
+        self.w = 0            # the wrapper call the consumer's thread is in (0: none)
+
+    def add(self, op, w=None, s=0, v=0, **kw):
+        self.ev.append(dict({"op": op, "w": self.w if w is None else w, "s": s, "v": v}, **kw))
+
+
+class _HIter:
+    """iterator without __len__ over the items of source s: logs every pull, raises _SrcFail instead of item `failat`,
+    is dead afterwards (like a generator that raised)"""
+    def __init__(self, rec, s, items, failat):
+        self.rec, self.s, self.items, self.failat, self.i, self.dead = rec, s, items, failat, 0, False
+
+    def __iter__(self):
+        return self
+
+    def __next__(self):
+        if self.dead or (self.i >= len(self.items) and self.failat != len(self.items) + 1):
+            self.rec.add("pullend", s=self.s)
+            raise StopIteration
+        if self.i + 1 == self.failat:
+            self.dead = True
+            self.rec.add("pullerr", s=self.s)
+            raise _SrcFail("source %d fails at item %d" % (self.s, self.failat))
+        self.i += 1
+        self.rec.add("pull", s=self.s, v=self.i)
+        return self.items[self.i - 1]
+
+
+class _HList(list):
+    """a list (has __len__): every iteration gets a cursor of its own"""
+    def bind(self, rec, s, failat):
+        self._a = (rec, s, failat)
+        return self
+
+    def __iter__(self):
+        rec, s, failat = self._a
+        return _HIter(rec, s, [x for x in list.__iter__(self)], failat)
+
+
+def _h_gen(rec, s, items, failat):
+    """a true generator: after its end or its exception it answers StopIteration without running any code"""
+    i = 0
+    while True:
+        if i >= len(items) and failat != len(items) + 1:
+            rec.add("pullend", s=s)
+            return
+        if i + 1 == failat:
+            rec.add("pullerr", s=s)
+            raise _SrcFail("source %d fails at item %d" % (s, failat))
+        i += 1
+        rec.add("pull", s=s, v=i)
+        yield items[i - 1]
+
+
+def pbh_run(script):
+    """drive the real wrappers as the consumer script says; returns the event stream"""
+    from esutil import pbar as pb
+    rec = _HRec()
+    srcs, ident = [], {}
+    for s, sd in enumerate(script["srcs"], 1):
+        items = [_Obj(i % 2) for i in range(sd["n"])]
+        for i, x in enumerate(items, 1):
+            ident[id(x)] = (s, i)
+        if sd["kind"] == "list":
+            srcs.append(_HList(items).bind(rec, s, sd["failat"]))
+        elif sd["kind"] == "gen":
+            srcs.append(_h_gen(rec, s, items, sd["failat"]))
+        else:
+            srcs.append(_HIter(rec, s, items, sd["failat"]))
+    its = {}
+    keep = [srcs, ident]
+    for k, c in enumerate(script["cmds"]):
+        w = c["w"]
+        rec.w = w
+        if c["cmd"] == "wrap":
+            sd = script["srcs"][c["s"] - 1]
+            rec.add("wrap", s=c["s"], total=c["total"], simple=bool(c["simple"]))
+            kw = {"file": io.StringIO(), "mininterval": 0.0 if k % 2 else 0.5, "miniters": 1 + k % 2, "leave": bool(k % 3)}
+            if c["total"] == "exact":
+                kw["total"] = max(sd["n"], 1)
+            if c["simple"]:
+                kw["simple"] = True
+            try:
+                its[w] = iter((pb.PBar if k % 2 else pb.pbar)(srcs[c["s"] - 1], **kw))
+            except Exception:  # noqa  (a wrapper that rejects at construction: the consumer learns it at once)
+                rec.add("request")
+                rec.add("error")
+                its[w] = iter(())
+        elif c["cmd"] == "next":
+            for _ in range(c["s"]):
+                rec.add("request")
+                try:
+                    x = next(its[w])
+                    sv = ident.get(id(x), (-1, -1))
+                    rec.add("yield", s=sv[0], v=sv[1])
+                except StopIteration:
+                    rec.add("stop")
+                except Exception:  # noqa
+                    rec.add("error")
+        elif c["cmd"] == "close":
+            rec.add("close")
+            try:
+                its[w].close()
+            except AttributeError:
+                pass
+            except Exception:  # noqa
+                pass
+        elif c["cmd"] == "drop":
+            rec.add("close")
+            old = its[w]
+            its[w] = iter(())           # the last reference to the wrapper goes away; later requests find nothing
+            del old                     # CPython: the reference count drops to zero, the generator is closed at once
+        else:
+            raise MachineryError("unknown consumer command %r" % c["cmd"])
+        rec.w = 0
+    del keep
+    return rec.ev
+
+
+def _pbh_sig(script, ev, clause):
+    kinds = {"len" if sd["kind"] == "list" else "nolen" for sd in script["srcs"]}
+    return "pbar|%s|history,sources=%s" % (clause, kinds.pop() if len(kinds) == 1 else "mixed")
+
+
+def pbh_judge(ctx, recs, what, selftest=()):
+    rej = tracecheck.validate(ctx, "ProgressHistTrace.tla", [{"id": r["id"], "cs": {"srcs": r["script"]["srcs"]}, "ev": r["ev"]} for r in recs],
+                              what=what, constants=PBH_TRACE_CONSTS)
+    ctx.traces -= len([i for i in selftest if i not in rej])
+    byid = {r["id"]: r for r in recs}
+    for rid, failing in rej.items():
+        if rid in selftest:
+            continue
+        r = byid[rid]
+        for clause in failing:
+            if clause.startswith("harness_") or clause in ("unknown_event", "unknown_wrapper"):
+                raise MachineryError("progress history: the harness's own events break the protocol (%s): %s" % (clause, r["ev"]))
+            ctx.violation(_pbh_sig(r["script"], r["ev"], clause),
+                          "event stream of a history of progress wrappers is not a run of ProgressHist.tla: clause %s" % clause,
+                          {"kind": "pbarhist", "script": r["script"], "events": r["ev"]})
+    return rej
+
+
+def part_pbarhist(ctx):
+    T = PBH_TIERS[ctx.tier]
+    r0 = _m(ctx, "pbarhist.mc")
+    if r0.distinct < 10000:
+        raise MachineryError("ProgressHist model run visited only %d states" % r0.distinct)
+    rb = _m(ctx, "pbarhist.self")
+    if "HLazy" not in rb.violated:
+        raise MachineryError("self-test failed: ProgressHist HLazy not violated with Lazy = FALSE")
+    rs = _m(ctx, "pbarhist.sim")
+    seen, scripts = set(), []
+    for sc in rs.records.get("SCRIPT", []):
+        key = repr(sc)
+        if key not in seen:
+            seen.add(key)
+            scripts.append(sc)
+    scripts = scripts[:: max(1, len(scripts) // T["keep"])][:T["keep"]]
+    if len(scripts) < T["keep"] // 2:
+        raise MachineryError("ProgressHist simulation produced only %d scripts" % len(scripts))
+    recs = []
+    for i, sc in enumerate(scripts, 1):
+        recs.append({"id": i, "script": sc, "ev": pbh_run(sc)})
+        ctx.count({"pbarhist": sc})
+    # vacuity guard: the situations the histories are there for
+    st = collections.Counter()
+    for r in recs:
+        ev = r["ev"]
+        wsrc = {}
+        for e in ev:
+            if e["op"] == "wrap":
+                if e["s"] in wsrc.values():
+                    st["iterable_wrapped_again"] += 1
+                wsrc[e["w"]] = e["s"]
+        ops = [e["op"] for e in ev]
+        st["source_raised"] += "pullerr" in ops
+        st["error_passed_on"] += any(a == "pullerr" and b == "error" for a, b in zip(ops, ops[1:]))
+        st["asked_after_end"] += any(a == "stop" and b == "request" for a, b in zip(ops, ops[1:]))
+        st["closed_then_asked"] += any(a == "close" and b == "request" and ev[i]["w"] == ev[i + 1]["w"] for i, (a, b) in enumerate(zip(ops, ops[1:])))
+        st["yields"] += ops.count("yield")
+    need = dict(iterable_wrapped_again=20, source_raised=20, error_passed_on=5, asked_after_end=20, closed_then_asked=10, yields=200)
+    if any(st[k] < v for k, v in need.items()):
+        raise MachineryError("progress histories are too thin (vacuity guard): %s" % dict(st))
+    ctx.sample({"pbar_history": recs[len(recs) // 2]["script"], "events": recs[len(recs) // 2]["ev"]})
+    # binding self-test: corrupted streams ride along
+    probe = next(r for r in recs if sum(1 for e in r["ev"] if e["op"] == "yield") >= 2 and len({e["w"] for e in r["ev"] if e["op"] == "yield"}) >= 2
+                 and len({e["s"] for e in r["ev"] if e["op"] == "yield"}) == 1
+                 and next(sd for sd in [r["script"]["srcs"][[e for e in r["ev"] if e["op"] == "yield"][0]["s"] - 1]])["kind"] != "list")
+    ev = probe["ev"]
+    iy = [i for i, e in enumerate(ev) if e["op"] == "yield"]
+    dup = [dict(e) for e in ev]
+    dup[iy[1]]["v"] = ev[iy[0]]["v"]                                              # the second wrapper yields the first one's item again
+    ip = [i for i, e in enumerate(ev) if e["op"] == "pull"]
+    lost = [e for i, e in enumerate(ev) if i != iy[0]]                            # an item pulled and never yielded: the request is left open
+    eager = ev[:ip[0] + 1] + [dict(ev[ip[0]], v=ev[ip[0]]["v"] + 1)] + ev[ip[0] + 1:]   # two pulls in a row
+    S = [10 ** 6 + t for t in range(1, 4)]
+    rej = pbh_judge(ctx, recs + [{"id": S[0], "script": probe["script"], "ev": dup}, {"id": S[1], "script": probe["script"], "ev": lost},
+                                 {"id": S[2], "script": probe["script"], "ev": eager}],
+                    "judge histories of progress wrappers (ProgressHistTrace; corrupted copies ride along)", selftest=S)
+    ok = (rej.get(S[0]) == ["yielded_item_not_next_of_source"] and S[1] in rej and rej.get(S[2]) in (["not_lazy_pulled_ahead_of_consumer"], ["source_out_of_order"]))
+    if not ok and not ctx.violations:
+        raise MachineryError("binding self-test failed (pbar histories): %s" % {i: rej.get(i) for i in S})
+    ctx.note(pbarhist=dict(model_bounds=T["model"], script_bounds=T["sim"], scripts=len(scripts), situations=dict(st), model_states=r0.distinct))
+    return ("%d consumer scripts of %d commands (tlc -simulate on ProgressHist.tla: up to %d wrapper objects over up to %d iterables - lists iterated "
+            "afresh, generators / iterators shared, exhausted, failing at or after their last item -, next / close / drop interleaved, finished "
+            "wrappers asked again) driven through pbar / PBar" % (len(scripts), T["sim"]["MaxCmd"], T["sim"]["MaxWr"], T["sim"]["MaxSrc"]))
 
 
 # =====================================================================================
@@ -813,15 +1307,8 @@ def _out_of_order(rec):
 
 def part_pmap(ctx):
     B = PMAP_BOUNDS[ctx.tier]
-    consts = dict(B, AnyOrder=False, DoExport=True)
-    # model: every schedule; ordered delivery; liveness under weak fairness (no state constraint besides the export print)
-    r1 = ctx.tlc("PoolMap.tla", what="PoolMap: delivered = prefix of map(fn, items) under every schedule; <>all delivered (WF); export",
-                 cfg_text=cfg(spec="Spec", constants=consts, invariants=["PrefixInv", "ConserveInv", "FinalInv"],
-                              properties=["AllDelivered"], constraints=["Export"]),
-                 workers=1, require=["ChooseN", "ChooseWC", "TakeAny", "EvalAny", "FinishAny", "Deliver"], timeout=3000)
-    rb = ctx.tlc("PoolMap.tla", what="self-test: Deliver of ANY finished chunk violates PrefixInv",
-                 cfg_text=cfg(spec="Spec", constants=dict(B, MaxItems=3, AnyOrder=True, DoExport=False), invariants=["PrefixInv"]),
-                 workers=2, allow_violation=True, coverage=False)
+    r1 = _m(ctx, "pmap.mc")       # every schedule; ordered delivery; liveness under weak fairness; final states exported
+    rb = _m(ctx, "pmap.self")
     if "PrefixInv" not in rb.violated:
         raise MachineryError("self-test failed: PoolMap PrefixInv not violated by unordered delivery")
     scheds = sorted({(c["n"], c["W"], c["cs"], tuple(c["forder"])) for c in r1.records.get("CASE", [])})
@@ -908,14 +1395,325 @@ def part_pmap(ctx):
 
 
 # =====================================================================================
+# 4b. histories of pmap calls in one process (PoolHist.tla)
+# =====================================================================================
+PMH_CONSTS = dict(NV=3, MaxLen=4, MaxW=3, MaxCS=3, Gens={0, 1, 2, 3})
+# exhaustive model depth, simulated histories: number asked for, kept, operations per history
+PMH_TIERS = {"quick": dict(mc_depth=5, num=30, keep=12, depth=16), "thorough": dict(mc_depth=8, num=400, keep=150, depth=24)}
+
+
+def _pmh_table0():
+    return [i for i in range(1, PMH_CONSTS["NV"] + 1)]            # PHTable(0)
+
+
+def pmh_run(ops):
+    """execute one history on the real pmap, in THIS process; returns the operations with what was observed"""
+    from esutil import pbar as pb
+    saved = c20_tasks.TABLE
+    c20_tasks.TABLE = _pmh_table0()
+    L = list(range(min(PMH_CONSTS["NV"], 2)))                      # PHItems0: the ONE list object of the history
+    it, it_len = None, 0
+    out = []
+    try:
+        for o in ops:
+            o = {k: v for k, v in o.items() if k not in ("res", "after")}
+            if o["op"] == "settab":
+                if o["how"] == "rebind":
+                    c20_tasks.TABLE = list(o["tab"])
+                else:
+                    for i, x in enumerate(o["tab"]):
+                        if c20_tasks.TABLE[i] != x:
+                            c20_tasks.TABLE[i] = x                 # in place: same list object
+                o["after"] = list(c20_tasks.TABLE)
+            elif o["op"] == "mut":
+                how = o["how"]
+                if how == "append":
+                    L.append(o["v"])
+                elif how == "pop":
+                    L.pop()
+                elif how == "reverse":
+                    L.reverse()
+                elif how == "set":
+                    L[o["i"] - 1] = o["v"]
+                elif how == "clear":
+                    del L[:]
+                else:
+                    raise MachineryError("unknown list operation %r" % how)
+                o["after"] = list(L)
+            elif o["op"] == "newiter":
+                it, it_len = iter(tuple(L)), len(L)
+            elif o["op"] == "call":
+                src = o["src"]
+                if src == "iter" and it is None:
+                    raise MachineryError("history feeds a call from an iterator that was never made")
+                arg = {"list": lambda: L, "tuple": lambda: tuple(L), "gen": lambda: (x for x in L), "iter": lambda: it}[src]()
+                n = it_len if src == "iter" else len(L)
+                kw = {"file": io.StringIO()}
+                if o["opt"] in ("exact", "simple"):
+                    kw["total"] = n
+                if o["opt"] == "simple":
+                    kw["simple"] = True
+                cs = 0 if o["bad"] == "cs0" else o["cs"]
+                try:
+                    res = pb.pmap(c20_tasks.HIST_FNS[o["fn"]], arg, chunksize=cs, nproc=o["W"], **kw)
+                    if type(res) is not list:
+                        o["res"] = {"err": "result_not_a_list:" + type(res).__name__, "val": []}
+                    else:
+                        o["res"] = {"err": "none", "val": [x if type(x) is int else -1 for x in res]}
+                except Exception as e:  # noqa
+                    o["res"] = {"err": _err(e), "val": []}
+                if src == "iter":
+                    it_len = 0
+            else:
+                raise MachineryError("unknown history operation %r" % o["op"])
+            out.append(o)
+    finally:
+        c20_tasks.TABLE = saved
+    return out
+
+
+def _isolated(fn, arg, timeout=300):
+    """run fn(arg) in a forked child that starts from this process's image and return its (JSON-able) result: every
+    history gets a process of its own, so a replay of the history alone sees what the check saw.  The child ends its
+    own child processes (worker pools a tree under test may have left running) before it exits."""
+    import json
+    import multiprocessing
+    import select
+    import signal
+    import time
+    rfd, wfd = os.pipe()
+    pid = os.fork()
+    if pid == 0:
+        code = 1
+        try:
+            os.close(rfd)
+            out = json.dumps(fn(arg)).encode()
+            with os.fdopen(wfd, "wb") as f:
+                f.write(out)
+            code = 0
+        except BaseException as e:  # noqa
+            try:
+                os.write(2, ("c20 child failed: %r\n" % (e,)).encode())
+            except Exception:  # noqa
+                pass
+        finally:
+            try:
+                for p in multiprocessing.active_children():
+                    p.terminate()
+                for p in multiprocessing.active_children():
+                    p.join(1)
+            finally:
+                os._exit(code)
+    os.close(wfd)
+    buf, t0 = b"", time.monotonic()
+    try:
+        while True:
+            left = timeout - (time.monotonic() - t0)
+            if left <= 0:
+                os.kill(pid, signal.SIGKILL)
+                os.waitpid(pid, 0)
+                raise MachineryError("child process for a call history did not finish within %d s" % timeout)
+            if select.select([rfd], [], [], min(left, 1.0))[0]:
+                chunk = os.read(rfd, 1 << 16)
+                if not chunk:
+                    break
+                buf += chunk
+    finally:
+        os.close(rfd)
+    _, status = os.waitpid(pid, 0)
+    if status != 0 or not buf:
+        raise MachineryError("child process for a call history failed (status %d)" % status)
+    return json.loads(buf.decode())
+
+
+def _isolated_many(fn, args, lanes):
+    """_isolated over many arguments, `lanes` at a time (each lane is a forked child that forks one grandchild per
+    argument, so no process ever forks while it has threads)"""
+    args = list(args)
+    lanes = max(1, min(lanes, len(args), int(os.environ.get("VH_MAX_WORKERS", "16"))))
+    if lanes == 1 or len(args) < 8:
+        return [_isolated(fn, a) for a in args]
+    parts = [args[i::lanes] for i in range(lanes)]
+
+    def lane(part):
+        return [_isolated(fn, a) for a in part]
+    import json
+    pipes = []
+    for part in parts:
+        rfd, wfd = os.pipe()
+        pid = os.fork()
+        if pid == 0:
+            code = 1
+            try:
+                os.close(rfd)
+                with os.fdopen(wfd, "wb") as f:
+                    f.write(json.dumps(lane(part)).encode())
+                code = 0
+            except BaseException as e:  # noqa
+                os.write(2, ("c20 lane failed: %r\n" % (e,)).encode())
+            finally:
+                os._exit(code)
+        os.close(wfd)
+        pipes.append((pid, rfd))
+    outs = []
+    for pid, rfd in pipes:
+        with os.fdopen(rfd, "rb") as f:
+            data = f.read()
+        _, status = os.waitpid(pid, 0)
+        if status != 0 or not data:
+            raise MachineryError("lane process for call histories failed (status %d)" % status)
+        outs.append(json.loads(data.decode()))
+    res = [None] * len(args)
+    for i, out in enumerate(outs):
+        res[i::lanes] = out
+    return res
+
+
+def _pmh_sig(o, clause):
+    return "pmap|%s|history,fn=%s,items=%s" % (clause, "pure" if o["fn"] == "sq" else "reads_module_state",
+                                                "iterator" if o["src"] == "iter" else "list")
+
+
+def pmh_judge(ctx, recs, what, selftest=()):
+    """selftest: ids of deliberately corrupted records riding in the same TLC run (their rejection is no verdict)"""
+    rej = tracecheck.validate(ctx, "PoolHistTrace.tla", [{"id": r["id"], "ops": r["ops"]} for r in recs], what=what,
+                              constants=dict(PMH_CONSTS, HDepth=1, PoolMode="fresh", Thin=True, DoExport=False))
+    byid = {r["id"]: r for r in recs}
+    ctx.traces -= len([i for i in selftest if i not in rej])
+    for rid, failing in rej.items():
+        if rid in selftest:
+            continue
+        r = byid[rid]
+        for k, clause in failing:
+            o = r["ops"][k - 1]
+            if clause == "harness_state_mismatch":
+                raise MachineryError("history replay: the harness's table / list differs from PHStep after operation %d of %s" % (k, r["ops"]))
+            ctx.violation(_pmh_sig(o, clause),
+                          "call %d of a history of pmap calls in one process did not return list(map(fn, items)) as evaluated in the "
+                          "parent at the time of the call (PoolHist!PHCallFailing): clause %s%s"
+                          % (sum(1 for x in r["ops"][:k] if x["op"] == "call"), clause,
+                             (" (" + o["res"]["err"] + ")") if o["res"]["err"] != "none" else ""),
+                          {"kind": "pmaphist", "ops": [{kk: v for kk, v in x.items() if kk not in ("res", "after")} for x in r["ops"][:k]],
+                           "failing_op": k, "observed": o["res"]})
+    return rej
+
+
+def _pmh_stats(hists):
+    """vacuity guard: how often the situations the histories are there for occur"""
+    st = collections.Counter()
+    for h in hists:
+        used, keys, tabchg, itemchg = set(), set(), False, False
+        for o in h["ops"]:
+            if o["op"] == "settab":
+                tabchg = True
+            elif o["op"] == "mut":
+                itemchg = True
+            elif o["op"] == "call":
+                if o["bad"] != "none":
+                    st["bad_argument_calls"] += 1
+                    continue
+                if o["fn"] != "sq" and o["W"] in used and tabchg:
+                    st["reads_changed_state_with_nproc_used_before"] += 1
+                if itemchg and used:
+                    st["items_mutated_since_an_earlier_call"] += 1
+                key = tuple(o[k] for k in ("fn", "W", "cs", "src"))
+                if key in keys and o["src"] == "list" and itemchg:
+                    st["same_call_repeated_on_the_mutated_list"] += 1
+                keys.add(key)
+                if o["src"] == "iter":
+                    st["fed_from_long_lived_iterator"] += 1
+                if o["fn"] == "chk":
+                    st["fn_may_raise"] += 1
+                used.add(o["W"])
+                st["calls"] += 1
+    return st
+
+
+def part_pmaphist(ctx):
+    import multiprocessing
+    T = PMH_TIERS[ctx.tier]
+    r0 = _m(ctx, "pmaphist.mc")
+    if r0.distinct < 5000:
+        raise MachineryError("PoolHist model run visited only %d states" % r0.distinct)
+    rb = _m(ctx, "pmaphist.self")
+    if "HistRefines" not in rb.violated:
+        raise MachineryError("self-test failed: PoolHist HistRefines not violated by the cached pool")
+    rs = _m(ctx, "pmaphist.sim")
+    byprefix = {}
+    for h in rs.records.get("HIST", []):                            # the constraint prints every candidate last operation:
+        byprefix.setdefault(repr(h["ops"][:-1]), h)                 # one history per simulated behaviour
+    hists = list(byprefix.values())[:T["keep"]]
+    if len(hists) < T["keep"] or any(len(h["ops"]) != T["depth"] for h in hists):
+        raise MachineryError("PoolHist simulation produced %d histories of depth %s" % (len(hists), sorted({len(h["ops"]) for h in hists})))
+    st = _pmh_stats(hists)
+    need = {"reads_changed_state_with_nproc_used_before": T["keep"], "items_mutated_since_an_earlier_call": T["keep"],
+            "fed_from_long_lived_iterator": 2, "fn_may_raise": T["keep"] // 2, "same_call_repeated_on_the_mutated_list": T["keep"] // 3}
+    if any(st[k] < v for k, v in need.items()):
+        raise MachineryError("simulated pmap histories are too thin (vacuity guard): %s" % dict(st))
+    start = multiprocessing.get_start_method()
+    if start != "fork":
+        # workers that do not fork from the parent re-import the task module: state changed after import is invisible to
+        # them by the nature of that start method - the reading "as evaluated in the parent" needs fork
+        raise MachineryError("multiprocessing start method is %r: the history check is written for fork" % start)
+    recs = [{"id": i, "ops": ops} for i, ops in enumerate(_isolated_many(pmh_run, [h["ops"] for h in hists], 4), 1)]
+    for h in hists:
+        ctx.count({"pmaphist": h["ops"]})
+    mid = recs[len(recs) // 2]
+    ctx.sample({"pmap_history": mid["ops"][:8]})
+    # binding self-test: a call answered from the table of an earlier moment / from the list of an earlier moment is rejected
+    probe = None
+    for r in recs:
+        tabs = [_pmh_table0()]
+        for k, o in enumerate(r["ops"]):
+            if o["op"] == "settab":
+                tabs.append(o["after"])
+            elif (o["op"] == "call" and o["bad"] == "none" and o["fn"] == "tab" and o["res"]["err"] == "none" and o["res"]["val"]
+                  and len(tabs) >= 2 and o["src"] != "iter"):
+                cur = tabs[-1]
+                inv = {x: j for j, x in enumerate(cur)}
+                old = next((t for t in tabs[:-1] if [t[inv[x]] for x in o["res"]["val"] if x in inv] != o["res"]["val"]), None)
+                if old is not None and all(x in inv for x in o["res"]["val"]):
+                    probe = (r, k, [old[inv[x]] for x in o["res"]["val"]])
+                    break
+        if probe:
+            break
+    if not probe:
+        raise MachineryError("no history suitable for the binding self-test (pmap histories)")
+    r, k, stale = probe
+    bad1 = [dict(o) for o in r["ops"]]
+    bad1[k] = dict(bad1[k], res={"err": "none", "val": stale})
+    bad2 = [dict(o) for o in r["ops"]]
+    bad2[k] = dict(bad2[k], res={"err": "none", "val": r["ops"][k]["res"]["val"] + [5]})
+    S1, S2 = 10 ** 6 + 1, 10 ** 6 + 2
+    rej = pmh_judge(ctx, recs + [{"id": S1, "ops": bad1}, {"id": S2, "ops": bad2}],
+                    "judge histories of pmap calls (PoolHistTrace; two corrupted copies ride along as binding self-test)", selftest=(S1, S2))
+    if rej.get(S1) != [[k + 1, "result_from_stale_process_state"]] or [k + 1, "result_length"] not in rej.get(S2, []):
+        if not ctx.violations:
+            raise MachineryError("binding self-test failed (pmap histories): %s" % {i: rej.get(i) for i in (S1, S2)})
+    ctx.note(pmaphist=dict(consts={k: (sorted(v) if isinstance(v, set) else v) for k, v in PMH_CONSTS.items()}, exhaustive_depth=T["mc_depth"],
+                           histories=len(hists), operations_per_history=T["depth"], situations=dict(st), start_method=start))
+    return ("%d histories of %d operations each (tlc -simulate on PoolHist.tla: the module-level table the task function reads re-bound / "
+            "overwritten in place, the caller's one item list mutated in place, a long-lived iterator, nproc / chunksize / fn / options "
+            "changing from call to call, failing fn and chunksize=0 calls interleaved) executed in one process, %d calls"
+            % (len(hists), T["depth"], st["calls"]))
+
+
+# =====================================================================================
 def run(ctx):
     rules = []
+    _prefetch(ctx)
     if _want(ctx, "sort"):
         rules.append("sort: " + part_sort(ctx))
+    if _want(ctx, "sortscale"):
+        rules.append("sort at scale: " + part_sortscale(ctx))
     if _want(ctx, "chunk"):
         rules.append("chunk: " + part_chunk(ctx))
     if _want(ctx, "pbar"):
         rules.append("pbar: " + part_pbar(ctx))
+    if _want(ctx, "pbarhist"):
+        rules.append("pbar histories: " + part_pbarhist(ctx))
+    if _want(ctx, "pmaphist"):        # before any pmap call of this process: the children that run the histories start clean
+        rules.append("pmap histories: " + part_pmaphist(ctx))
     if _want(ctx, "pmap"):
         rules.append("pmap: " + part_pmap(ctx))
     ctx.rule = "; ".join(rules) + ("; a case is distinct by its abstract record (+ container / entry point) and counted once; "
@@ -929,6 +1727,13 @@ def run(ctx):
         "laziness is read as the weaker invariant pulled <= yielded + 1",
         "text written to file= is not constrained",
         "pmap worker streams that PoolMap.tla cannot explain are reported as leads in the evidence, never as violations",
+        "pmap histories: worker processes are forked (the start method of this platform), so 'list(map(fn, items)) as evaluated in the "
+        "parent at the time of the call' is what a correct pmap returns also for a task function that reads module-level state; the "
+        "outcome of a call with chunksize=0 is not constrained (only that the calls after it are unaffected)",
+        "progress histories: after the wrapped iterable raised, passing the exception on and stopping are both accepted; a pull may "
+        "run one item ahead of the consumer (the same weaker reading of 'lazily')",
+        "sorts at scale run with the interpreter's recursion limit raised to 4n + 2000: the default limit is a property of the caller's "
+        "environment; what the sort does with ~1000 already sorted elements at the default limit is recorded as a lead (note sortscale)",
     ]
     ctx.trusted_base = ctx.trusted_base + [
         "CPython generator / iterator protocol and concurrent.futures.ProcessPoolExecutor as the substrate the wrappers run on",
@@ -959,5 +1764,18 @@ def replay(ctx, case):
         rec["id"] = 1
         print("replay observed:", rec["res"], rec["workers"])
         pmap_judge(ctx, [rec], "replay")
+    elif kind == "pbarhist":
+        ev = pbh_run(case["script"])
+        print("replay observed:", ev)
+        pbh_judge(ctx, [{"id": 1, "script": case["script"], "ev": ev}], "replay")
+    elif kind == "sortscale":
+        c = case["c"]
+        o = sortscale_obs((c, case["kkind"], case["vkind"]))
+        print("replay observed:", o["err"], o["pr"][:20])
+        _judge_scale(ctx, [{"id": 1, "c": c, "obs": [o]}], "replay")
+    elif kind == "pmaphist":
+        ops = _isolated(pmh_run, case["ops"])
+        print("replay observed:", ops[case["failing_op"] - 1])
+        pmh_judge(ctx, [{"id": 1, "ops": ops}], "replay")
     else:
         raise MachineryError("unknown replay case kind %r" % kind)
